@@ -6,6 +6,7 @@ import (
 
 	"github.com/z7zmey/php-parser/pkg/ast"
 	"github.com/z7zmey/php-parser/pkg/version"
+	"github.com/z7zmey/php-parser/pkg/visitor/traverser"
 	"github.com/z7zmey/php-parser/verifmc/astx"
 	"github.com/z7zmey/php-parser/verifmc/core"
 	"github.com/z7zmey/php-parser/verifmc/corpus"
@@ -26,6 +27,21 @@ type c12SrcCase struct {
 func c12Tree(c *core.Ctx, cs srcCase) {
 	setBlock(&cs)
 	res := drive.Parse(cs.Src, parseVer(cs.Ver), true)
+	if res.OK() && res.Root == nil && res.TypedNil != nil {
+		// "no tree" handed back as a non-nil interface around a nil node: a caller's `root != nil` test passes, and
+		// traversing it hands the visitor something that is not a tree (or panics)
+		rc := c12SrcCase{"C", cs}
+		rc.srcCase.Mode = "C"
+		got, pan := 0, interface{}(nil)
+		func() {
+			defer func() { pan = recover() }()
+			traverser.NewTraverser(&astx.FuncVisitor{F: func(ast.Vertex) { got++ }}).Traverse(res.TypedNil)
+		}()
+		if got > 0 || pan != nil {
+			c.Report("Parse returns a non-nil Vertex that holds a nil node: traversing it hands the visitor a node that is not in any tree", mkWhat("%q: %d callbacks, panic=%v", cs.Src, got, pan), rc)
+		}
+		return
+	}
 	if !res.OK() || res.Root == nil {
 		c.Stat("no_tree(not judged)", 1)
 		return
@@ -72,6 +88,14 @@ func init() {
 					c12Tree(c, mkCase(src, f.V, why))
 				}
 			})
+			// every token-prefix of the rule-level programs: parses that recover, and parses that are given up (no tree)
+			for _, it := range validItems(f, 1) {
+				for _, t := range it.RealToks {
+					if t.Position != nil && t.Position.EndPos < len(it.Src) && c.Next() {
+						c12Tree(c, mkCase(it.Src[:t.Position.EndPos], f.V, "truncated corpus program"))
+					}
+				}
+			}
 			// E-pairs: a value left on the yacc stack by an earlier statement and picked up by a later one puts the
 			// same node object into two places of the tree
 			lp := 1
